@@ -10,6 +10,7 @@ CODES = {
     8: "persistent keepalive late or missing", 9: "persistent keepalive early",
     10: "unexpected datagram / queued packets out of order / discarded packets sent", 11: "queued packets or response not sent in time",
     12: "unexpected TUN write", 13: "TUN write late or missing", 14: "needless handshake although the peer answered",
+    15: "packets queued without session and without a handshake attempt, and no initiation follows",
     21: "a timer's output is missing", 22: "an owed output is missing", 23: "an owed output came late", 24: "another datagram than the one owed",
     25: "a timer fired late", 26: "a datagram that no step and no timer of the model explains", 27: "unexpected TUN write (model)",
     28: "TUN write late (model)", 30: "inconclusive: input inside a timer's firing window", 40: "scenario could not be run",
@@ -22,7 +23,8 @@ class Prop:
     vo_props = ["theories/Props/C14.vo"]
     k_names = ["trace(real-time traces of device timers/staging within [deadline-2ms, deadline(+333ms jitter)+500ms] of Timers.Model)"]
     rule = ("real-time scenarios, each on its own device (sim bind/tun) with a remote party from the white paper, all run concurrently: "
-            "unanswered initiation (retransmission gaps, give-up, with/without persistent keepalive), response to the k-th transmission only, "
+            "unanswered initiation (retransmission gaps, give-up, with/without persistent keepalive; the bind refusing the 1st/2nd initiation), response to the k-th transmission only, "
+            "interface bounce (Down/Up) within 1.2 s of a handshake message with/without persistent keepalive, answered or not, "
             "receive-only (keepalive at 10 s, second data while pending), unanswered send (new handshake at 15 s + jitter; answered => none), "
             "persistent keepalive (1/2/3/.. s, interval restarted by a receive), 1/127/128/129/300/random TUN batches of 1..4 packets staged "
             "before completion in both roles; start offsets, batch sizes and delays from one PRNG; non-trivial = the trace contains at least "
